@@ -8,23 +8,23 @@ CLAIMED = {
  "C01": ("The real verifyConsensusFieldMain -> VrfVerifyPriority -> verifyVotes (BLS branch) on an arbitrary decoded header over a symbolic two-validator look-back set with signature / VRF / seat / quorum oracles: acceptance implies the mathematical weight of distinct eligible signers with protocol-valid sortition reaches the protocol's quorum, and the proposer credential used the protocol's threshold.",
          "Trusted: gosym, z3; crypto idealised; two validators, up to two votes, EnableBls; certificate branch outside. Two open known findings (header-chosen thresholds, voter eligibility).",
          "solver-based symbolic execution of go/ssa (bv) with uninterpreted crypto oracles"),
- "C02": ("Bounded symbolic history (vote attempts with symbolic kind/round/index, context changes, crash+restart on the same database) over the real VoteDB code; a ghost list of signed votes decides 'at most one per kind, round, index'.",
+ "C02": ("Bounded symbolic history (vote attempts with symbolic kind/round/index, context changes, crash+restart on the same database) over the real VoteDB code; a ghost list of signed votes decides 'at most one per kind, round, index'; the real Voter.vote over it with every database write a possible kill point: at most one vote of a kind leaves the node per round and index.",
          "Trusted: gosym, z3; signatures and RLP of VoteItem idealised (native replay uses the real ones); rounds do not go back across restarts; history length 4/5.",
          "solver-based symbolic execution of go/ssa (bv), bounded history with symbolic arguments"),
  "C03": ("Tally and escalation kernels: bounded symbolic vote histories over the real VoteSta against 'first votes of non-equivocating senders'; one step of the real judgeVoteCount from an arbitrary voter state (precommit only on a prevote quorum, certificate vote / commit only with every required quorum); the real float64 OverThreshold against the rational fractions 0.685 T / 0.585 T in the FloatingPoint theory (reaching the fraction passes; passing is less than one vote below it); bounded vote histories through the real VotesWrapper/judgeVoteCount/commit, also across a real round-index change: every posted CommitEvent carries vote sets that reach their quorums.",
          "Trusted: gosym, z3. NOT covered: message caching, goroutines, credential checks of incoming votes. One open known finding (commit packs vote sets reduced by a later equivocation).",
          "solver-based symbolic execution of go/ssa (bv + FloatingPoint lemma)"),
- "C04": ("Control skeleton only: search on every monotone predicate; choose's branches with gonum's CDF as an unknown non-decreasing function (least-j quantile, 0<=j<=stake, mirrored branch); MakeM injectivity; VrfVerifySortition/VrfVerifyPriority bind key, message, stake, threshold/total and seat count under an idealised VRF; computePriority is the maximum per-seat hash.",
+ "C04": ("Control skeleton only: search on every monotone predicate; choose's branches with gonum's CDF as an unknown non-decreasing function (least-j quantile, 0<=j<=stake, mirrored branch); MakeM injectivity; VrfVerifySortition/VrfVerifyPriority bind key, message, stake, threshold/total and seat count under an idealised VRF; computePriority is the maximum per-seat hash, every seat with its own hash input up to committee-sized seat counts.",
          "Trusted: gosym, z3 (FloatingPoint + UF). NOT covered (the numeric heart): that gonum's float64 incomplete-beta CDF is the binomial CDF, float rounding, stakes beyond the small bound. One open known finding (zero-seat proposer).",
          "solver-based symbolic execution of go/ssa with uninterpreted monotone CDF"),
  "C05": ("Real processDoubleSignV5/doPenalize/takePenalty on the real StateDB with an arbitrary well-typed evidence and BLS idealised behind the repo's interfaces with a signing oracle (honest: at most one hash per vote kind per round/index): honest safety, equivocation penalised once within the fraction and credited to the penalty account, takePenalty cap/conservation/non-negativity/consistency with delegations and pending withdrawals.",
          "Trusted: gosym, z3; BLS idealisation; one validator in the look-back set, two pairs. Re-inclusion of one evidence in two blocks is penalised at most once. Two open known findings (duplicate pair, cross-kind).",
          "solver-based symbolic execution of go/ssa (SMT Int mode) with uninterpreted signing oracle"),
- "C06": ("End-of-block staking kernels only: rewardsToPool, distributeRewards and the validator pass slashingAndRecoveringYouV5 (state and order of emitted logs) give the same result under every Go map / sync.Map iteration order (self-composition on a Copy, executor forks over all orders); builder slashing vs importing node's replaySlashing of the written slash data for an arbitrary double-sign evidence.",
+ "C06": ("End-of-block staking kernels only: rewardsToPool, distributeRewards and the validator pass slashingAndRecoveringYouV5 (state and order of emitted logs) give the same result under every Go map / sync.Map iteration order; builder and importing node execute transactions with the same beneficiary (self-composition on a Copy, executor forks over all orders); builder slashing vs importing node's replaySlashing of the written slash data for an arbitrary double-sign evidence.",
          "Trusted: gosym, z3, StateDB.Copy (C10). NOT covered: whole-block determinism through EVM, RLP, tries, receipts, caches. One open known finding (zero-penalty expulsion not replayed).",
          "solver-based symbolic execution of go/ssa with map-order permutation and self-composition"),
- "C07": ("One inductive step per end-of-block value-moving kernel (blockRewards+rewardsToPool, distributeRewards, settleValidatorRewards, processWithdrawQueue) with a ghost sum over balances, reward accounts, role pools, residue, pending withdrawals and the block's fees; penalties are in C05, fee charging in C17 (whose staking-converter contract harness - reported gas = consumed gas - also runs here).",
-         "Trusted: gosym, z3 (non-linear Int, standalone fallback); online validators hold >= 1 stake unit; individual staking action handlers and EVM transfers outside. One open known finding (forced settle loses rewards).",
+ "C07": ("One inductive step per end-of-block value-moving kernel (blockRewards+rewardsToPool, distributeRewards, settleValidatorRewards, processWithdrawQueue) with a ghost sum over balances, reward accounts, role pools, residue, pending withdrawals and the block's fees; penalties are in C05, fee charging in C17 (whose staking-converter contract harness - reported gas = consumed gas - also runs here); the four value-moving take-effect handlers of staking actions conserve stake + withdraw queue + balances.",
+         "Trusted: gosym, z3 (non-linear Int, standalone fallback); online validators hold >= 1 stake unit; submission-side staking handlers and EVM transfers outside. One open known finding (forced settle loses rewards).",
          "solver-based symbolic execution of go/ssa (SMT Int mode, non-linear), inductive conservation step"),
  "C08": ("Inductive step on the real StateDB validator/delegation code from an arbitrary consistent two-validator state (symbolic role/status/token, a delegator with up to two delegations): statistics = recomputation, index = live set, per-validator sums and delegator links after every mutation and after its revert.",
          "Trusted: gosym, z3; fake Database/Trie behind the repo's own interfaces; PubToAddress/RLP of the delegator list idealised; commit+reload outside.",
@@ -38,29 +38,29 @@ CLAIMED = {
  "C12": ("Inductive step over the real VerifyYouVersionState with ghost state from every invariant-satisfying header and every valid 3-version parameter table (all symbolic); builder ProcessYouVersionState subset of verifier; chains of 3/4 headers through the real chain-level VerifyYouVersionState2 with the ghost computed from the history (no invariant assumed); VersionForRoundWithParents reads the parameters of the header 8 rounds back without leaving the batch.",
          "Trusted: gosym, z3; parameter tables restricted to the stated validity predicate; numbers < 2^40. One open known finding (late approval).",
          "solver-based symbolic execution of go/ssa (SMT Int mode), inductive invariant step"),
- "C13": ("Structural half: compact/hex key encodings on symbolic nibble strings, decodeNode on every byte string up to the bound (+ shaped full nodes), in-memory insert/delete/get against an association-list model and a canonical rebuild (history independence before hashing), also after commit+reopen with hash references resolved through the real simplifyNode/expandNode pair (incl. prefix keys / branch values).",
-         "Trusted: gosym, z3; canonical nibble labelling (symmetry of the trie code under per-position relabelling). NOT covered: hashing/root value, Prove/VerifyProof, iterator order, the hasher/committer and disk format, node DB GC.",
+ "C13": ("Structural half: compact/hex key encodings on symbolic nibble strings, decodeNode on every byte string up to the bound (+ shaped full nodes), in-memory insert/delete/get against an association-list model and a canonical rebuild (history independence before hashing), also after commit+reopen with hash references resolved through the real simplifyNode/expandNode pair (incl. prefix keys / branch values); the hasher embeds exactly the nodes shorter than 32 bytes.",
+         "Trusted: gosym, z3; canonical nibble labelling (symmetry of the trie code under per-position relabelling). NOT covered: hashing/root value, Prove/VerifyProof, the root value (keccak over reflection RLP), iterator order, the committer and disk format, node DB GC.",
          "solver-based symbolic execution of go/ssa (bv)"),
- "C14": ("Primitive layer: every byte string of the stated lengths through rlp.Split*/CountValues/readKind/readSize and Stream.Bytes/Uint/Raw/List; accept => canonical against an independent Yellow-Paper encoder; encoder heads for every 64-bit size; allocation bounded by input; the reflect-facing leaf decoders/writers (big.Int, uint64, []byte, string, bool) and the rlp:\"nil\" optional-pointer decoder on a minimal reflect model.",
-         "Trusted: gosym incl. its minimal reflect model, z3. NOT covered: struct/list decoders, the type cache, custom EncodeRLP/DecodeRLP pairs and the handlers built on them. One open known finding (nil tag accepts the empty list).",
+ "C14": ("Primitive layer: every byte string of the stated lengths through rlp.Split*/CountValues/readKind/readSize and Stream.Bytes/Uint/Raw/List; accept => canonical against an independent Yellow-Paper encoder; encoder heads for every 64-bit size; allocation bounded by input; the reflect-facing leaf decoders/writers (big.Int, uint64, []byte, string, bool) and the rlp:\"nil\" optional-pointer decoder on a minimal reflect model; the consensus layer's entry points accept exactly one RLP value (codec entry points by contract over the real rlp.Split).",
+         "Trusted: gosym incl. its minimal reflect model, z3. NOT covered: struct/list decoders, the type cache, custom EncodeRLP/DecodeRLP pairs and the other handlers built on them. One open known finding (nil tag accepts the empty list).",
          "solver-based symbolic execution of go/ssa (bv) over fully symbolic byte buffers"),
  "C15": ("Each computational opcode's real execute function (from the real Istanbul jump table) on arbitrary 256-bit operands with sentinel, shared intPool and aliasing checks; oracle = SMT-LIB 256-bit BV theory, or Yellow-Paper integer definitions (DIV/SDIV/MOD/SMOD/ADDMOD/MULMOD/EXP).",
          "Trusted: gosym incl. its big.Int model (520-bit two's complement / SMT Int), z3; EXP: full width for exponents <= 7/15, modulo 2^8 for sparse multi-limb exponents (2/3 limbs); memory/storage opcodes outside.",
          "solver-based symbolic execution of go/ssa, equivalence against bit-vector / integer specifications"),
- "C16": ("One call frame = the inductive step over call depth: real Call/CallCode/DelegateCall/StaticCall/create against a recording fake of vm.StateDB with the callee replaced by an arbitrary outcome: snapshot before every mutation, revert-to-that-snapshot last on failure, all gas burnt unless REVERT, refusals touch nothing and return the gas; the real interpreter loop in read-only mode over all 256 opcode bytes of the real jump table.",
-         "Trusted: gosym, z3; callee summary (mutates only through vm.StateDB, leaves gas <= given). NOT covered: whole multi-contract programs, SELFDESTRUCT burn, opCall* gas forwarding; the journal itself is C09 (its committed-view twin harness also runs here).",
+ "C16": ("One call frame = the inductive step over call depth: real Call/CallCode/DelegateCall/StaticCall/create against a recording fake of vm.StateDB with the callee replaced by an arbitrary outcome: snapshot before every mutation, revert-to-that-snapshot last on failure, all gas burnt unless REVERT, refusals touch nothing and return the gas; one CALL-family instruction's gas forwarding and the frame-local static flag through the real interpreter; the real interpreter loop in read-only mode over all 256 opcode bytes of the real jump table.",
+         "Trusted: gosym, z3; callee summary (mutates only through vm.StateDB, leaves gas <= given). NOT covered: whole multi-contract programs, SELFDESTRUCT burn; the journal itself is C09 (its committed-view twin harness also runs here).",
          "solver-based symbolic execution of go/ssa (bv), one inductive frame with an arbitrary callee summary"),
- "C17": ("Signer V/network-id arithmetic, signature value ranges and hash binding on symbolic V/R/S/ids with recovery and rlpHash idealised; the real ApplyMessageEntry (preCheck, buyGas, IntrinsicGas, UseGas, refundGas, GasPool) on the real StateDB with an arbitrary gas-monotone converter step: refusals change nothing, exact charge, refund <= half; the staking module's TxConverter.ApplyMessage meets the converter contract assumed there (nonce +1 failed or not, reported gas = consumed gas; protocol versions 4 and 5).",
+ "C17": ("Signer V/network-id arithmetic, signature value ranges and hash binding on symbolic V/R/S/ids with recovery and rlpHash idealised; the real ApplyMessageEntry (preCheck, buyGas, IntrinsicGas, UseGas, refundGas, GasPool) on the real StateDB with an arbitrary gas-monotone converter step: refusals change nothing, exact charge, refund <= half; the staking module's TxConverter.ApplyMessage meets the converter contract assumed there (nonce +1 failed or not, reported gas = consumed gas; protocol versions 4 and 5); the per-transaction sender cache is transparent across network ids.",
          "Trusted: gosym, z3; secp256k1 and rlpHash injectivity idealised; one of r,s full length. One open known finding (pre-refund gasUsed).",
          "solver-based symbolic execution of go/ssa (bv / SMT Int)"),
  "C18": ("Bounded symbolic histories over the real download queue (Schedule, ReserveBodies, DeliverBodies, CancelBodies, Revoke, ExpireBodies, Results, real prque, peer lacking sets) in FullSync: ghost accounting of every header across task queue / peer requests / done set, strictly ascending gap-free single release with the body matching the transaction root, refusals of unsolicited data, then completion with one honest peer.",
          "Trusted: gosym, z3; Header.Hash / DeriveSha idealised as injective; 6-slot result window (2-slot under 4 headers in the window entry). NOT covered: liveness beyond the completion phase, goroutine layer of downloader.go/fetcher.go, receipts/FastSync, skeleton filling, memory throttling.",
          "solver-based bounded symbolic execution of go/ssa (histories of 3 / 5 operations, 2 / 3 headers, 2 peers)"),
- "C19": ("Scheduler half: the real trie.Sync (NewSync, Missing, Process, schedule, children, commit, Pending) and priority queue over every small source DAG given by a symbolic child table and every response order / repetition / unsolicited delivery within the bound: children complete before parents, Pending()=0 exactly when every reachable node is stored, refusals change nothing, counters never negative, nothing stored twice.",
+ "C19": ("Scheduler half: the real trie.Sync (NewSync, Missing, Process, schedule, children, commit, Pending) and priority queue over every small source DAG given by a symbolic child table and every response order / repetition / unsolicited delivery within the bound: children complete before parents, Pending()=0 exactly when every reachable node is stored, refusals change nothing, counters never negative, leaves referencing shared raw entries through the leaf callback, nothing stored twice.",
          "Trusted: gosym, z3; decodeNode replaced by a table lookup. NOT covered: that delivered bytes hash to the requested key (keccak in goroutines of triesync.go), state-sync leaf callback, content equality after sync.",
          "solver-based symbolic execution of go/ssa (bv) with symbolic DAG shape and responses"),
- "C20": ("Inductive step over txSortedMap and txList (real container/heap, sort) from an arbitrary invariant-satisfying list with symbolic nonces/prices/gas: representation invariant and functional specs of Put/Forward/Filter/Cap/Remove/Ready/Flatten/Add.",
-         "Trusted: gosym, z3. NOT covered: pool-level pending/queued views, limits, eviction, reorg loop, and every concurrency claim.",
+ "C20": ("Inductive step over txSortedMap and txList (real container/heap, sort) from an arbitrary invariant-satisfying list with symbolic nonces/prices/gas: representation invariant and functional specs of Put/Forward/Filter/Cap/Remove/Ready/Flatten/Add; pool level: bounded histories (arrival, new head, removal) over the real TxPool bookkeeping with the statement's views asserted after every reorg step.",
+         "Trusted: gosym, z3; sender carried in the payload, transaction identity an injective stand-in. NOT covered: reorg re-injection, locals, journal, the goroutine loop, timers and every concurrency claim.",
          "solver-based symbolic execution of go/ssa (bv / Int), inductive invariant step"),
 }
 
